@@ -248,27 +248,29 @@ Definition log_ticks_at (b : Z) (mn mx : Q) (roundOut : bool) (level : Z) : list
   log_ticks_at' b (log_exps b emin emax) neg emin emax roundOut level.
 
 (* log.go:193-207 *)
-Definition log_ticks (b : Z) (mn mx : Q) (o : tickopts) : ticks_res :=
+Definition log_ticks_gen (C : logexp -> bool -> Z -> Z) (b : Z) (mn mx : Q) (o : tickopts) : ticks_res :=
   if (o_max o <=? 0)%Z then TR_none
   else if Qeqb mn mx then TR_ticks [mn] [mx]
   else
     let '(neg, emin, emax) := log_fold mn mx in
     let e := log_exps b emin emax in
-    match find_level o (log_count e false) 0 with
+    match find_level o (C e false) 0 with
     | FL_ok l => TR_ticks (log_ticks_at' b e neg emin emax false l) (log_ticks_at' b e neg emin emax false (l - 1))
     | _ => TR_none
     end.
+(* the count function is a parameter only for the check's cheaper, extensionally equal count *)
+Definition log_ticks := log_ticks_gen log_count.
 
 (* float64 range: a positive value neither underflows to 0 nor overflows to +Inf *)
 Definition f64_pos_ok (q : Q) : bool := Qleb (qpow 2 (-1074)) q && Qltb q (qpow 2 1024).
 
 (* log.go:209-232, repaired (D10): each end moves only outwards and only to a positive finite
    float64 value *)
-Definition log_nice (b : Z) (mn mx : Q) (o : tickopts) : Q * Q :=
+Definition log_nice_gen (C : logexp -> bool -> Z -> Z) (b : Z) (mn mx : Q) (o : tickopts) : Q * Q :=
   if Qeqb mn mx then (mn, mx) else
   let '(neg, emin, emax) := log_fold mn mx in
   let e := log_exps b emin emax in
-  match find_level o (log_count e true) 0 with
+  match find_level o (C e true) 0 with
   | FL_ok l =>
       let '(f, la) := log_first_last e true l in
       let k := (2 ^ l)%Z in
@@ -278,3 +280,4 @@ Definition log_nice (b : Z) (mn mx : Q) (o : tickopts) : Q * Q :=
       if neg then (- nemax, - nemin) else (nemin, nemax)
   | _ => (mn, mx)
   end.
+Definition log_nice := log_nice_gen log_count.
